@@ -1208,6 +1208,10 @@ pub fn run_c01(seed: u64, run: u64, stats: &mut Stats, inspect: bool) -> Vec<Vio
                 let (hw, pr) = sizes[round % sizes.len()];
                 let mut b = base[..8.min(base.len())].to_vec();
                 if b.len() == 8 {
+                    if round % 2 == 0 {
+                        // the most common type pair: Ethernet / IPv4
+                        b[..4].copy_from_slice(&[0, 1, 8, 0]);
+                    }
                     b[4] = hw;
                     b[5] = pr;
                     let body = 2 * (usize::from(hw) + usize::from(pr));
